@@ -151,3 +151,32 @@ package refopts
 //@ property C06: (*RefGroupBuilder).Finish (*RefGroupBuilder).AddRefopts
 //@ property C07: parentName
 //@ property C15: splitKey
+
+// ---------------------------------------------------------------- filter_group_value.go: @REFGROUP (C06)
+// "@REFGROUP matches exactly the members of that group": a reference is a
+// member iff the group's own rules accept it (a group without rules being the
+// union of its subgroups) and every ancestor below the top level that has
+// rules accepts it. One level each; the recursive calls are used through
+// these same contracts.
+//@ func refGroupPasses
+//@   pure
+//@   call 0 refGroupPasses as up
+//@   ensures len(rg.Symbol) == 0 ==> result
+//@   ensures len(rg.Symbol) > 0 ==> up_reached && result == (up && (rg.filter == nil || apply(rg.filter, refname)))
+
+//@ func refGroupMatches
+//@   pure
+//@   call 0 refGroupMatches as sub
+//@   ensures rg.filter != nil ==> result == apply(rg.filter, refname)
+//@   loop 0 step !sub
+//@   ensures rg.filter == nil && len(rg.subgroups) == 0 ==> !result
+
+//@ func (refGroupFilter).Filter
+//@   option no-subtype A-REFGROUP-FILTER
+//@   pure
+//@   call 0 refGroupPasses as ps
+//@   call 0 refGroupMatches as ms
+//@   ensures result == (ps && (!ms_reached || ms))
+//@   ensures result ==> ms_reached && ms
+
+//@ property C06: refGroupPasses refGroupMatches (refGroupFilter).Filter
